@@ -941,11 +941,14 @@ public:
     /// iterators and references may be invalidated.
     constexpr auto swap(basic_inplace_string& other) noexcept -> void
     {
-        auto const thisSize = size();
-        auto const maxSize  = static_cast<etl::ptrdiff_t>(etl::max(thisSize, other.size()));
+        // both sizes are read before the ranges are swapped: in the tiny layout a full string
+        // keeps its size in the last swapped character
+        auto const thisSize  = size();
+        auto const otherSize = other.size();
+        auto const maxSize   = static_cast<etl::ptrdiff_t>(etl::max(thisSize, otherSize));
 
         etl::swap_ranges(begin(), etl::next(begin(), maxSize + 1), other.begin()); // includes null-terminator
-        unsafe_set_size(other.size());
+        unsafe_set_size(otherSize);
         other.unsafe_set_size(thisSize);
     }
 
